@@ -9,12 +9,13 @@ from .. import core, tlc
 INVS = ["SessionEmptyOutsideRuns", "ResultIndependentOfHistory", "ReusedProviderAnswersAsFresh", "OutcomeInContract",
         "SilentSkipEqualsRemoval", "EmitCase"]
 ALLK = {"mk1", "mk2", "use", "bad", "unsup"}
+DIALK = {"mk1", "use", "bad", "dial"}
 
 
-def cfg(chk, name, runs=("r1", "r2"), maxstmts=2, kinds=ALLK, maxfault=1, known=(), emit=False, record=False, invariants=INVS):
+def cfg(chk, name, runs=("r1", "r2"), maxstmts=2, kinds=ALLK, maxfault=1, known=(), emit=False, record=False, invariants=INVS, dias=("ansi",)):
     return tlc.write_cfg(os.path.join(chk.work, name + ".cfg"),
                          constants=dict(Runs=set(runs), Provs={"p1", "p2", "dflt"}, MaxStmts=maxstmts, Known=set(known), Emit=emit,
-                                        Kinds=set(kinds), MaxFault=maxfault, Record=record), invariants=list(invariants))
+                                        Kinds=set(kinds), MaxFault=maxfault, Record=record, Dias=set(dias)), invariants=list(invariants))
 
 
 def _replay_chunk(cases):
@@ -47,6 +48,11 @@ def generate(chk, quick, seed):
                     "generate: simulated histories of %d runs" % len(runs), workers=1, coverage=False,
                     simulate="num=%d" % num, depth=6 * len(runs) + 2, seed=seed, timeout=3000)
         cases += r.cases("CASE")
+    r = chk.tlc("Pipeline", cfg(chk, "gen_simd", runs=("r1", "r2", "r3"), maxstmts=2, maxfault=0, emit=True, record=True, kinds=DIALK,
+                                dias=("ansi", "tsql_ns"), invariants=["EmitCase"]),
+                "generate: simulated histories mixing ansi and tsql-without-semicolon runs", workers=1, coverage=False,
+                simulate="num=%d" % (500 if quick else 8000), depth=18, seed=seed, timeout=3000)
+    cases += r.cases("CASE")
     return cases, n_exh
 
 
@@ -62,8 +68,13 @@ def run(chk):
                                 maxfault=1), "O1 three runs", workers=16, timeout=5000)
     if r.violated:
         raise core.MachineryError("Pipeline.tla intended mechanism violates %s" % r.violated)
-    for dev in ["D_NO_DEREGISTER_ON_ERROR", "D_SESSION_AFTER_BASE", "D_SILENT_ABORTS"] + ([] if quick else ["D_TRUTHY_DEFAULT"]):
-        r = chk.tlc("Pipeline", cfg(chk, "dev_" + dev, maxstmts=2, known=[dev]), "expected-fail " + dev, workers=16,
+    r = chk.tlc("Pipeline", cfg(chk, "mcd", maxstmts=2, kinds=DIALK, maxfault=0, dias=("ansi", "tsql_ns")), "O1 two runs, two dialect modes",
+                workers=16, timeout=5000)
+    if r.violated:
+        raise core.MachineryError("Pipeline.tla intended mechanism violates %s" % r.violated)
+    for dev in ["D_NO_DEREGISTER_ON_ERROR", "D_SESSION_AFTER_BASE", "D_SILENT_ABORTS", "D_SHARED_PARSE_CACHE"] + ([] if quick else ["D_TRUTHY_DEFAULT"]):
+        r = chk.tlc("Pipeline", cfg(chk, "dev_" + dev, maxstmts=2, known=[dev], kinds=DIALK if dev == "D_SHARED_PARSE_CACHE" else ALLK,
+                                    dias=("ansi", "tsql_ns") if dev == "D_SHARED_PARSE_CACHE" else ("ansi",)), "expected-fail " + dev, workers=16,
                     expect_violation=True, coverage=False)
         chk.self_test("spec finds " + dev, bool(r.violated), ",".join(r.violated))
     # ---------------- spec -> code
@@ -88,7 +99,7 @@ def run(chk):
             if m["e"] == "exit" and (m["outcome"] != o["outcome"] or [list(x) for x in m["seen"]] != o["seen"] or m["warnings"] != o["warnings"]):
                 eq = False
         same.append(eq)
-        sig = [[e["r"], e["e"], e.get("p"), e.get("script"), e.get("silent"), e.get("fault")] for e in c["log"]]
+        sig = [[e["r"], e["e"], e.get("p"), e.get("script"), e.get("silent"), e.get("fault"), e.get("dia")] for e in c["log"]]
         chk.count(sig, nontrivial=sum(1 for e in c["log"] if e["e"] == "begin") >= 2)
     chk.sample({"history": [[e["r"], e["e"]] + ([e["p"], list(e["script"]), e["silent"], e["fault"]] if e["e"] == "begin" else
                                                [e["outcome"], e["seen"]] if e["e"] == "exit" else [e["k"]]) for e in evs[len(evs) // 2]]})
